@@ -357,7 +357,9 @@ def gen_part_spec(rng, pid="P0", rich=True, n_meas=None):
     spec = {"id": pid, "q": q, "beats": beats, "n_meas": n_meas, "name": rng.choice([None, "Piano", "Vl"]),
             "notes": [], "rests": [], "ties": [], "slurs": [], "tuplets": [], "repeats": [], "endings": [], "nav": [],
             "keysig": None, "clefs": [], "dirs": [], "measures": rng.random() < 0.85, "pickup": False,
-            "ids": rng.choice(["all", "all", "none", "some"]), "staves": rng.choice([1, 1, 2])}
+            "ids": rng.choice(["all", "all", "none", "some"]), "staves": rng.choice([1, 1, 2]),
+            # segments already registered with add_segments (then the path search works on the part's own Segment objects)
+            "segments": rng.random() < 0.2}
     nvoices = rng.choice([1, 1, 2, 3])
     sym_mode = rng.choice(["all", "none", "some", "some"])
     nid = 0
@@ -1042,3 +1044,701 @@ def run_case(case, schedule, prm, fresh_checks=()):
             findings.append({"type": "history_dependent", "entry": name, "step": -1, "fields": [],
                              "detail": [json.dumps(results[name], default=str)[:300], json.dumps(res2, default=str)[:300]], "outcome": res2[0]})
     return findings, trace, results
+
+
+# ---------------------------------------------------------------------------------------
+# 6. Container protocol: histories over real Score / Performance objects
+
+
+def build_container(spec):
+    """spec = {'type': 'score'|'performance', 'labels': [0, 1, 0 ...]} -- equal labels = the same
+    part object appearing more than once."""
+    import partitura.performance as P
+    import partitura.score as S
+
+    labels = spec["labels"]
+    objs = {}
+    for l in labels:
+        if l not in objs:
+            if spec["type"] == "score":
+                p = S.Part("P%d" % l, quarter_duration=1)
+                p.add(S.Note("C", 4, id="n%d" % l, voice=1), 0, 1)
+                objs[l] = p
+            else:
+                objs[l] = P.PerformedPart([{"midi_pitch": 60 + l, "note_on": 0.0, "note_off": 1.0, "velocity": 64, "id": "n%d" % l}], id="PP%d" % l)
+    items = [objs[l] for l in labels]
+    if spec["type"] == "score":
+        c = S.Score(items, id="c")
+    else:
+        c = P.Performance(items, id="c", ensure_unique_tracks=False)
+    return c, items
+
+
+def run_history(spec, hist):
+    """hist: list of ['iter', k] | ['next', k] | ['len'] | ['get', i] -> observed results
+    as tuples ('iter',) ('yield', label) ('stop',) ('len', n) ('item', label) ('indexerror',) ('other', text)."""
+    c, items = build_container(spec)
+    labels = spec["labels"]
+
+    def lab(o):
+        for it, l in zip(items, labels):
+            if it is o:
+                return l
+        return -1
+
+    its = {}
+    out = []
+    fp0 = fp_digest(fingerprint([c]))
+    for o in hist:
+        try:
+            if o[0] == "iter":
+                its[o[1]] = iter(c)
+                out.append(("iter",))
+            elif o[0] == "next":
+                try:
+                    out.append(("yield", lab(next(its[o[1]]))))
+                except StopIteration:
+                    out.append(("stop",))
+            elif o[0] == "len":
+                out.append(("len", len(c)))
+            elif o[0] == "get":
+                try:
+                    out.append(("item", lab(c[o[1]])))
+                except IndexError:
+                    out.append(("indexerror",))
+        except Exception as e:
+            out.append(("other", type(e).__name__))
+    unchanged = fp_digest(fingerprint([c])) == fp0
+    return out, unchanged
+
+
+def oracle_history(labels, hist):
+    """independent Python statement of O3: every handle has its own cursor."""
+    cur = {}
+    n = len(labels)
+    out = []
+    for o in hist:
+        if o[0] == "iter":
+            cur[o[1]] = 0
+            out.append(("iter",))
+        elif o[0] == "next":
+            if cur[o[1]] < n:
+                out.append(("yield", labels[cur[o[1]]]))
+                cur[o[1]] += 1
+            else:
+                out.append(("stop",))
+        elif o[0] == "len":
+            out.append(("len", n))
+        else:
+            i = o[1]
+            out.append(("item", labels[i]) if -n <= i < n else ("indexerror",))
+    return out
+
+
+def gen_history(rng, n, length, handles=4):
+    hist = []
+    bound = set()
+    for _ in range(length):
+        r = rng.random()
+        if r < 0.17 or not bound and r < 0.5:
+            k = rng.randrange(handles)
+            bound.add(k)
+            hist.append(["iter", k])
+        elif r < 0.72 and bound:
+            hist.append(["next", rng.choice(sorted(bound))])
+        elif r < 0.82:
+            hist.append(["len"])
+        else:
+            hist.append(["get", rng.randint(-n - 2, n + 1)])
+    return hist
+
+
+def enum_histories(maxlen):
+    """all valid histories up to maxlen over {iter 0, iter 1, next 0, next 1, len, get -1}."""
+    alpha = [["iter", 0], ["iter", 1], ["next", 0], ["next", 1], ["len"], ["get", -1]]
+    out = []
+
+    def rec(h, bound):
+        if h:
+            out.append(list(h))
+        if len(h) == maxlen:
+            return
+        for o in alpha:
+            if o[0] == "next" and o[1] not in bound:
+                continue
+            h.append(o)
+            rec(h, bound | {o[1]} if o[0] == "iter" else bound)
+            h.pop()
+
+    rec([], frozenset())
+    return out
+
+
+def coq_op(o):
+    if o[0] == "iter":
+        return "(Iter %s)" % cnat(o[1])
+    if o[0] == "next":
+        return "(Next %s)" % cnat(o[1])
+    if o[0] == "len":
+        return "Len"
+    return "(Get %s)" % cz(o[1])
+
+
+def coq_res(r):
+    return {"iter": lambda: "RIter", "yield": lambda: "(RYield %s)" % cz(r[1]), "stop": lambda: "RStop",
+            "len": lambda: "(RLen %s)" % cnat(r[1]), "item": lambda: "(RItem %s)" % cz(r[1]),
+            "indexerror": lambda: "RIndexError", "other": lambda: "RNoIter"}[r[0]]()
+
+
+def hist_term(labels, hist, obs):
+    return ctuple([clist([cz(l) for l in labels]), clist([coq_op(o) for o in hist]), clist([coq_res(r) for r in obs])])
+
+
+# ---------------------------------------------------------------------------------------
+# 7. Negative side: documented in-place operations change the fingerprint; and the
+# fingerprint is sensitive to every kind of small direct write (self-test of the observer).
+
+
+def inplace_ops():
+    import partitura.score as S
+
+    def first_note(p):
+        return next(iter(p.iter_all(S.Note)), None)
+
+    def op_add(p):
+        p.add(S.Note("C", 4, voice=1), 0, 1)
+
+    def op_remove(p):
+        p.remove(first_note(p))
+
+    def op_set_q(p):
+        p.set_quarter_duration(int(p.last_point.t) + 1, int(p._quarter_durations[-1]) + 1)
+
+    must = {
+        "Part.add": (op_add, lambda p: True),
+        "Part.remove": (op_remove, lambda p: first_note(p) is not None),
+        "add_measures": (S.add_measures, lambda p: not list(p.iter_all(S.Measure)) and list(p.iter_all(S.TimeSignature))),
+        "use_musical_beat": (lambda p: p.use_musical_beat(), lambda p: not p._use_musical_beat),
+        "add_segments": (S.add_segments, lambda p: not list(p.iter_all(S.Segment))),
+        "set_quarter_duration": (op_set_q, lambda p: True),
+    }
+    may = {
+        "tie_notes": S.tie_notes,
+        "find_tuplets": S.find_tuplets,
+        "fill_rests": lambda p: S.fill_rests(p),
+        "merge_parts": lambda p: S.merge_parts([p, p]) if False else S.merge_parts([p]),
+        "sanitize_part": S.sanitize_part,
+        "remove_grace_notes": S.remove_grace_notes,
+        "assign_note_ids": lambda p: S.assign_note_ids([p], keep=False),
+        "use_notated_beat": lambda p: p.use_notated_beat(),
+    }
+    return must, may
+
+
+def direct_writes(kind, args):
+    """small direct writes on the argument -> list of (name, thunk); thunk returns False when not applicable."""
+    import copy
+
+    import partitura.performance as P
+    import partitura.score as S
+
+    W = []
+    if kind == "score":
+        x = args[0]
+        parts = _parts_of(x)
+        p = parts[0]
+        notes = list(p.iter_all(S.Note))
+
+        def w(name, cond, f):
+            W.append((name, (lambda: (f() or True) if cond else False)))
+
+        n0 = notes[0] if notes else None
+        w("note.voice", n0, lambda: setattr(n0, "voice", (n0.voice or 0) + 1))
+        w("note.id", n0, lambda: setattr(n0, "id", "zz"))
+        w("note.staff", n0, lambda: setattr(n0, "staff", (n0.staff or 0) + 1))
+        w("note.alter", n0, lambda: setattr(n0, "alter", (n0.alter or 0) + 1))
+        w("note.symbolic_duration", n0, lambda: setattr(n0, "symbolic_duration", {"type": "long", "dots": 3}))
+        # (the getter returns a fresh estimate when no symbolic duration is stored: write the stored dict)
+        w("note.symbolic_duration[dots]", n0 is not None and isinstance(getattr(n0, "_sym_dur", None), dict),
+          lambda: n0._sym_dur.__setitem__("dots", 7))
+        w("note.tie_next", len(notes) > 1, lambda: setattr(notes[0], "tie_next", notes[-1] if notes[0].tie_next is not notes[-1] else None))
+        w("note.new_attribute", n0, lambda: setattr(n0, "cached_thing", 1))
+        w("timepoint.quarter", len(p._points) > 0, lambda: setattr(p._points[0], "quarter", (p._points[0].quarter or 0) + 1))
+        w("timepoint.next", len(p._points) > 1, lambda: setattr(p._points[0], "next", None))
+        w("part.part_name", True, lambda: setattr(p, "part_name", "renamed"))
+        w("part._quarter_durations", True, lambda: p._quarter_durations.append(99))
+        w("part.new_attribute", True, lambda: setattr(p, "_cache", {}))
+        tp_multi = [tp for tp in p._points for cls, objs in tp.starting_objects.items() if len(objs) > 1]
+
+        def reorder():
+            tp = tp_multi[0]
+            for cls, objs in tp.starting_objects.items():
+                if len(objs) > 1:
+                    items = list(objs)
+                    objs.clear()
+                    for o in reversed(items):
+                        objs.add(o)
+                    return
+
+        w("order of objects in a time point", tp_multi, reorder)
+
+        def replace_by_copy():
+            o = n0
+            c = copy.copy(o)
+            tbl = o.start.starting_objects[type(o)]
+            items = [c if z is o else z for z in tbl]
+            tbl.clear()
+            for z in items:
+                tbl.add(z)
+
+        w("object replaced by an equal copy (identity)", n0, replace_by_copy)
+        slurs = list(p.iter_all(S.Slur))
+        w("slur.end_note", slurs, lambda: setattr(slurs[0], "end_note", None))
+        meas = list(p.iter_all(S.Measure))
+        w("measure.number", meas, lambda: setattr(meas[0], "number", (meas[0].number or 0) + 100))
+        if isinstance(x, S.Score):
+            w("score.title", True, lambda: setattr(x, "title", "other"))
+            w("score.iter_idx (new attribute)", True, lambda: setattr(x, "iter_idx", 0))
+            w("score.parts order", len(x.parts) > 1 and x.parts[0] is not x.parts[-1], lambda: x.parts.reverse())
+    elif kind == "perf":
+        x = args[0]
+        pps = [x] if isinstance(x, P.PerformedPart) else list(x.performedparts) if isinstance(x, P.Performance) else list(x)
+        pp = pps[0]
+
+        def w(name, cond, f):
+            W.append((name, (lambda: (f() or True) if cond else False)))
+
+        w("pnote velocity", pp.notes, lambda: pp.notes[0].pnote_dict.__setitem__("velocity", pp.notes[0]["velocity"] % 127 + 1))
+        w("pnote new key", pp.notes, lambda: pp.notes[0].pnote_dict.__setitem__("note_on_tick", 5))
+        w("control value", pp.controls, lambda: pp.controls[0].__setitem__("value", (pp.controls[0]["value"] + 1) % 128))
+        w("controls order", len(pp.controls) > 1 and pp.controls[0] != pp.controls[-1], lambda: pp.controls.reverse())
+        w("notes order", len(pp.notes) > 1, lambda: pp.notes.reverse())
+        w("ppart.id", True, lambda: setattr(pp, "id", "other"))
+        w("ppart._sustain_pedal_threshold", True, lambda: setattr(pp, "_sustain_pedal_threshold", pp._sustain_pedal_threshold + 1))
+        if isinstance(x, P.Performance):
+            w("performance.iter_idx (new attribute)", True, lambda: setattr(x, "iter_idx", 0))
+            w("performance.title", True, lambda: setattr(x, "title", "other"))
+    elif kind == "align":
+        al, ppart, part = args
+
+        def w(name, cond, f):
+            W.append((name, (lambda: (f() or True) if cond else False)))
+
+        w("alignment label", al, lambda: al[0].__setitem__("label", "x"))
+        w("alignment score_id", [a for a in al if "score_id" in a],
+          lambda: [a for a in al if "score_id" in a][0].__setitem__("score_id", "q-1"))
+        w("alignment length", al, lambda: al.pop())
+        w("alignment element replaced by equal dict (identity)", al, lambda: al.__setitem__(0, dict(al[0])))
+    return W
+
+
+# ---------------------------------------------------------------------------------------
+# 8. The check
+
+FIXTURES = [
+    {"kind": "file", "loader": "score", "path": "musicxml/test_unfold_timeline.xml"},
+    {"kind": "file", "loader": "score", "path": "musicxml/test_unfold_complex.xml"},
+    {"kind": "file", "loader": "score", "path": "musicxml/test_unfold_dacapo.xml"},
+    {"kind": "file", "loader": "score", "path": "musicxml/test_unfold_volta_numbers.xml"},
+    {"kind": "file", "loader": "score", "path": "musicxml/test_note_ties.xml"},
+    {"kind": "file", "loader": "score", "path": "musicxml/test_tuplet_attributes.musicxml"},
+    {"kind": "file", "loader": "score", "path": "musicxml/test_part_group.xml", "thorough": True},
+    {"kind": "file", "loader": "score", "path": "musicxml/mozart_k265_var1.musicxml", "thorough": True},
+    {"kind": "file", "loader": "score", "path": "midi/test_basic_midi.mid"},
+    {"kind": "file", "loader": "perf", "path": "midi/mozart_k265_var1.mid"},
+    {"kind": "file", "loader": "match", "path": "match/mozart_k265_var1.match"},
+]
+
+K1 = "C20-K1"
+
+
+def _k1_matcher(obj):
+    """unfold_part_alignment renames the score ids of the alignment it is given (appends '-1'):
+    exactly that entry point, exactly that argument, exactly that rewrite."""
+    f = obj.get("finding", {})
+    return (obj.get("kind") == "footprint" and f.get("type") == "mutates" and f.get("entry") == "unfold_part_alignment"
+            and f.get("fields") == ["arg0[]"] and f.get("alignment_rename_only") is True)
+
+
+def make_schedule(rng, names, tier_rounds):
+    """each entry once, twice in a row, then `tier_rounds` seeded random orders of all entries."""
+    sched = []
+    first = list(names)
+    rng.shuffle(first)
+    for n in first:
+        sched += [n, n]
+    for _ in range(tier_rounds):
+        perm = list(names)
+        rng.shuffle(perm)
+        sched += perm
+    return sched
+
+
+def _alignment_rename_only(before, after):
+    if len(before) != len(after):
+        return False
+    changed = False
+    for b, a in zip(before, after):
+        if a == b:
+            continue
+        if set(a) != set(b) or "score_id" not in b:
+            return False
+        if any(a[k] != b[k] for k in b if k != "score_id") or a["score_id"] != "%s-1" % b["score_id"]:
+            return False
+        changed = True
+    return changed
+
+
+def check_case(case, schedule, prm, fresh):
+    """run_case + the extra shape information needed by the known-finding matcher."""
+    findings, trace, results = run_case(case, schedule, prm, fresh_checks=fresh)
+    for f in findings:
+        if f["type"] == "mutates" and f["entry"] == "unfold_part_alignment" and f["fields"] == ["arg0[]"]:
+            # recompute on a fresh build to see exactly what was rewritten
+            kind, args = build_case(case)
+            before = [dict(a) for a in args[0]]
+            call_entry("unfold_part_alignment", args, prm)
+            f["alignment_rename_only"] = _alignment_rename_only(before, args[0])
+    return findings, trace, results
+
+
+def shrink_schedule(case, schedule, prm, finding):
+    def fails(sub):
+        try:
+            fs, _, _ = run_case(case, sub, prm)
+        except Exception:
+            return False
+        return any(f["type"] == finding["type"] and f["entry"] == finding["entry"] and f["fields"] == finding["fields"] for f in fs)
+
+    try:
+        upto = schedule[: finding["step"] + 1] if finding.get("step", -1) >= 0 else list(schedule)
+        if fails(upto):
+            return core.ddmin(upto, fails)
+    except Exception:
+        pass
+    return list(schedule)
+
+
+def dz(hexdigest):
+    return int(hexdigest[:15], 16)
+
+
+def run(ctx):
+    import partitura.score as S
+
+    quick = ctx.tier != "thorough"
+    ctx.rule = ("footprint cases: generated scores (1-3 parts, 2-6 measures, voices/chords/ties/slurs/tuplets/grace notes, notes with and "
+                "without symbolic durations/ids/staff, optional measures, 80% with navigation: repeat, volta 1/2, repeat+Fine+D.C., "
+                "segno/coda, two repeats), performances (1-3 performed parts, controls, programs), alignments (part + derived performance), "
+                "plus fixture files; each applicable read-only entry point is called once, twice in a row and in 1 (quick) / 3 (thorough) "
+                "seeded random orders with a deep fingerprint of all arguments before and after every call, and on a fresh build. "
+                "distinct non-trivial = distinct (argument spec, entry point) pairs whose call returned normally; plus distinct container "
+                "histories that contain at least two live iterators. history cases: random interleavings of iter/next/len/index over "
+                "real Score/Performance objects with 0-5 parts (incl. the same part twice) and all valid histories up to length 4 (quick) / 6 "
+                "(thorough) over {iter 0, iter 1, next 0, next 1, len, c[-1]} on a two-part Score and Performance.")
+    ctx.trusted = ["Coq 8.16.1 kernel incl. vm_compute", "harness/props/c20.py: the fingerprint (what it reads of the objects), the generators and "
+                   "the canonical form of results", "CPython object identity (id) while the objects are alive",
+                   "that an entry point's footprint on the sampled arguments is representative (the footprints are OBSERVED, not proved)"]
+    ctx.assumptions = ["empty per-class slots of TimePoint.starting_objects/ending_objects (created by every read through defaultdict) are not part "
+                       "of the argument's state: unobservable through iter_starting/iter_ending/iter_all/iter_prev/iter_next/pretty/remove",
+                       "an exception raised by an entry point is not a C20 violation by itself (the argument must still be unchanged and the "
+                       "same exception type must be raised again)",
+                       "parts of a container are not replaced while iterators are live (the model's part list is constant)"]
+    ctx.matchers[K1] = _k1_matcher
+
+    ok, why = ctx.coq_props(expect_min=12)
+    proof_ok = ok
+    nviol0 = len(ctx.violations)
+
+    # ---- (a) container protocol ------------------------------------------------------
+    rng = ctx.rng
+    hcases = []  # (spec, hist)
+    n_rand = 400 if quick else 4000
+    for i in range(n_rand):
+        n = rng.choice([0, 1, 2, 2, 3, 3, 4, 5])
+        labels = list(range(n))
+        if n >= 2 and rng.random() < 0.15:
+            labels[rng.randrange(1, n)] = labels[0]
+        spec = {"type": rng.choice(["score", "performance"]), "labels": labels}
+        hcases.append((spec, gen_history(rng, n, rng.randint(3, 40))))
+    for typ in ("score", "performance"):
+        for h in enum_histories(4 if quick else 6):
+            hcases.append(({"type": typ, "labels": [0, 1]}, h))
+    # the documented witnesses: nested loops
+    for typ in ("score", "performance"):
+        hcases.append(({"type": typ, "labels": [0, 1]},
+                       [["iter", 0], ["next", 0], ["iter", 1], ["next", 1], ["next", 1], ["next", 1], ["next", 0], ["iter", 1],
+                        ["next", 1], ["next", 1], ["next", 1], ["next", 0]]))
+    terms = []
+    hist_bad = []
+    for idx, (spec, hist) in enumerate(hcases):
+        obs, unchanged = run_history(spec, hist)
+        exp = oracle_history(spec["labels"], hist)
+        ctx.evaluations += 1
+        ctx.count("history/" + spec["type"])
+        live = len({o[1] for o in hist if o[0] == "iter"})
+        if live >= 2:
+            ctx.nontrivial(["hist", spec, hist])
+        if obs != exp or not unchanged:
+            hist_bad.append(idx)
+            if len([1 for v in ctx.violations]) - nviol0 < 5:
+                # shrink the history
+                def fails(sub, spec=spec):
+                    try:
+                        o2, u2 = run_history(spec, sub)
+                        return o2 != oracle_history(spec["labels"], sub) or not u2
+                    except Exception:
+                        return False
+                small = core.ddmin(hist, fails) if fails(hist) else hist
+                o2, u2 = run_history(spec, small)
+                ctx.violation("container protocol: %s with parts %s, history %s answered %s, expected %s%s"
+                              % (spec["type"], spec["labels"], small, o2, oracle_history(spec["labels"], small),
+                                 "" if u2 else " (and the container's fingerprint changed)"),
+                              {"kind": "history", "spec": spec, "history": small, "observed": [list(x) for x in o2],
+                               "expected": [list(x) for x in oracle_history(spec["labels"], small)], "container_unchanged": u2})
+        terms.append(hist_term(spec["labels"], hist, obs))
+        if idx < 2:
+            ctx.sample({"container": spec, "history": hist, "observed": [list(x) for x in obs]})
+    try:
+        failing = ctx.coq_failing("hist", "From PV Require Import Lib.Base Model.C20.", "", terms, "hist_ok", shard=600)
+        detail = "" if not failing else "cases %s e.g. %s" % (failing[:5], hcases[failing[0]])
+    except RuntimeError as e:
+        failing, detail = [-1], str(e)[-800:]
+    ctx.obligation("correspondence: Score/Performance answer %d interleaved iter/next/len/index histories exactly as Model.C20.run_fresh (Coq hist_ok)"
+                   % len(terms), not failing, detail)
+    ctx.obligation("direct oracle: every iterator handle visits every part once in order in all %d histories; container fingerprint unchanged" % len(hcases),
+                   not hist_bad, hist_bad[:5])
+    for i in failing:
+        if i >= 0 and i not in hist_bad:
+            spec, hist = hcases[i]
+            obs, _ = run_history(spec, hist)
+            ctx.violation("container protocol: implementation and Coq model disagree on %s parts %s history %s observed %s" % (spec["type"], spec["labels"], hist, obs),
+                          {"kind": "history", "spec": spec, "history": hist, "observed": [list(x) for x in obs]})
+            break
+    if failing == [-1]:
+        ctx.violation("Coq evaluation of the container model failed: " + detail, {"kind": "coq"}, no_input=True)
+    # the same protocol used through Python's own loop constructs
+    idiom_bad = []
+    for typ in ("score", "performance"):
+        for labels in ([], [0], [0, 1], [0, 1, 2], [0, 1, 0], [0, 1, 2, 3]):
+            c, items = build_container({"type": typ, "labels": labels})
+            n = len(items)
+            idx = {id(o): i for i, o in reversed(list(enumerate(items)))}
+            got = {
+                "nested": [(idx[id(a)], idx[id(b)]) for a in c for b in c],
+                "triple": [(idx[id(a)], idx[id(b)], idx[id(d)]) for a in c for b in c for d in c],
+                "zip": [(idx[id(a)], idx[id(b)]) for a, b in zip(c, c)],
+                "list_twice": [[idx[id(a)] for a in c], [idx[id(a)] for a in c]],
+                "reversed": [idx[id(a)] for a in reversed(c)] if n else [],
+                "contains": [o in c for o in items],
+                "len": len(c),
+                "index": [idx[id(c[i])] for i in range(-n, n)],
+            }
+            first = [idx[id(o)] for o in items]
+            exp = {
+                "nested": [(a, b) for a in first for b in first],
+                "triple": [(a, b, d) for a in first for b in first for d in first],
+                "zip": [(a, a) for a in first],
+                "list_twice": [first, first],
+                "reversed": first[::-1],
+                "contains": [True] * n,
+                "len": n,
+                "index": first + first,
+            }
+            ctx.evaluations += 1
+            for k in exp:
+                if got[k] != exp[k]:
+                    idiom_bad.append((typ, labels, k))
+                    if len(idiom_bad) == 1:
+                        ctx.violation("container protocol: %s over parts %s: %s gives %s, expected %s" % (typ, labels, k, got[k], exp[k]),
+                                      {"kind": "idiom", "type": typ, "labels": labels, "idiom": k, "got": got[k], "expected": exp[k]})
+    ctx.obligation("direct oracle: nested / triple-nested for loops, zip(c, c), list(c) twice, reversed, in, len and c[-n..n-1] over Score and Performance "
+                   "with 0-4 parts give the full products / the parts in order", not idiom_bad, idiom_bad[:5])
+    ctx.log("container protocol: %d histories, %d disagreeing" % (len(hcases), len(hist_bad)))
+
+    # ---- (b) footprints ----------------------------------------------------------------
+    n_cases = 45 if quick else 520
+    rounds = 1 if quick else 3
+    cases = [{k: v for k, v in c.items() if k != "thorough"} for c in FIXTURES if not (quick and c.get("thorough"))]
+    # hand-written corner: repeat + Fine + D.C. (second get_paths used to differ), part given directly
+    for i in range(n_cases):
+        r = rng.random()
+        if r < 0.62:
+            cases.append({"kind": "score", "spec": gen_score_spec(rng)})
+        elif r < 0.8:
+            cases.append({"kind": "perf", "spec": gen_perf_spec(rng)})
+        else:
+            cases.append({"kind": "align", "spec": gen_alignment_spec(rng)})
+    traces = []
+    mut_entries = defaultdict(int)
+    outcome = defaultdict(lambda: [0, 0])
+    n_calls = 0
+    reported = set()
+    for ci, case in enumerate(cases):
+        prm = gen_params(rng, ctx.work)
+        try:
+            kind, args = build_case(case)
+        except Exception as e:
+            ctx.count("build_failed/" + type(e).__name__)
+            continue
+        names = entries_for(kind, args[0])
+        sched = make_schedule(rng, names, 1 if case["kind"] == "file" else rounds)
+        fresh = names if (not quick or ci % 3 == 0) else rng.sample(names, min(4, len(names)))
+        findings, trace, results = check_case(case, sched, prm, fresh)
+        n_calls += len(sched)
+        ctx.evaluations += len(sched)
+        ctx.count("case/" + case["kind"] + ("/" + case["spec"].get("as", "") if case["kind"] in ("score", "perf") else ""))
+        if case["kind"] == "score":
+            for ps in case["spec"]["parts"]:
+                nav = "+".join(sorted((["repeat"] if ps["repeats"] else []) + (["volta"] if ps["endings"] else []) + [k for k, _ in ps["nav"]])) or "none"
+                ctx.count("navigation/" + nav)
+        key = json.dumps(case, sort_keys=True, default=str)
+        for n, v in results.items():
+            outcome[n][0 if v[0] == "ok" else 1] += 1
+            if v[0] == "ok":
+                ctx.nontrivial([key, n])
+            else:
+                ctx.count("raised/%s/%s" % (n, v[1].split(":")[0]))
+        traces.append((dz(trace[0][1]) if trace else 0, [(n, dz(b), dz(a), dz(r)) for n, b, a, r in trace], ci))
+        if ci < 14 and ci >= 11:
+            ctx.sample({"case": case["kind"], "entries": names, "calls": len(sched), "findings": len(findings)})
+        for f in findings:
+            mut_entries[(f["type"], f["entry"])] += 1
+            sig = (f["type"], f["entry"], tuple(f["fields"]))
+            obj = {"kind": "footprint", "case": case, "schedule": sched, "params": {k: v for k, v in prm.items() if k != "_work"}, "finding": f}
+            if sig in reported:
+                # same shape already reported/matched once: still run it through the matcher so that hits are counted
+                if any(ctx.matchers.get(k["id"]) and ctx.matchers[k["id"]](obj) for k in ctx.known):
+                    ctx.violation("", obj)
+                continue
+            reported.add(sig)
+            if not any(ctx.matchers.get(k["id"]) and ctx.matchers[k["id"]](obj) for k in ctx.known):
+                small = shrink_schedule(case, sched, {**prm}, f)
+                obj["schedule"] = small
+            what = {"mutates": "read-only entry point %s changed its argument: wrote %s (%s)",
+                    "not_repeatable": "entry point %s gave a different result when called again on the unchanged argument%s: %s",
+                    "history_dependent": "entry point %s gives a different result after other read-only calls than on a fresh argument%s: %s"}[f["type"]]
+            ctx.violation(what % (f["entry"], ", ".join(f["fields"][:6]) if f["type"] == "mutates" else "", "; ".join(map(str, f["detail"][:3]))[:600]), obj)
+    ctx.extra["entry_outcomes"] = {n: {"ok": v[0], "raised": v[1]} for n, v in sorted(outcome.items())}
+    ctx.extra["never_succeeded"] = sorted(n for n, v in outcome.items() if v[0] == 0)
+    nbad = sum(mut_entries.values())
+    ctx.obligation("footprints: %d calls of %d read-only entry points on %d arguments left the deep fingerprint unchanged, repeated calls agreed, "
+                   "results equal those on a fresh argument (known findings excluded: %s)" % (n_calls, len(outcome), len(cases), dict(ctx.known_hits)),
+                   len(ctx.violations) == nviol0 or all(v[0].startswith("container") for v in ctx.violations[nviol0:]),
+                   dict(("%s/%s" % k, v) for k, v in mut_entries.items()))
+    # the same traces through the Coq trace checker (effect model): K1 traces are expected to fail there
+    ids = {n: i for i, n in enumerate(sorted(ENTRY))}
+    tterms = [ctuple([cz(init), clist([ctuple([cz(ids[n]), cz(b), cz(a), cz(r)]) for n, b, a, r in rows])]) for init, rows, _ in traces]
+    try:
+        tfail = ctx.coq_failing("trace", "From PV Require Import Lib.Base Model.C20.", "", tterms, "trace_ok", shard=40)
+        tdetail = ""
+    except RuntimeError as e:
+        tfail, tdetail = [-1], str(e)[-800:]
+    py_bad = set()
+    for ti, (init, rows, ci) in enumerate(traces):
+        res_of = {}
+        for n, b, a, r in rows:
+            if b != init or a != init or res_of.setdefault(n, r) != r:
+                py_bad.add(ti)
+    ctx.obligation("correspondence: %d observed call traces accepted by the Coq effect-model checker trace_ok exactly when the Python oracle accepts them "
+                   "(rejected: %d, all explained by reported/known findings)" % (len(tterms), len(py_bad)),
+                   tfail != [-1] and set(tfail) == py_bad, tdetail or "coq %s python %s" % (tfail[:8], sorted(py_bad)[:8]))
+    if tfail == [-1] or set(tfail) != py_bad:
+        ctx.violation("Coq trace checker and Python oracle disagree on observed traces: %s vs %s %s" % (tfail[:8], sorted(py_bad)[:8], tdetail[:300]),
+                      {"kind": "coq"}, no_input=True)
+    ctx.log("footprints: %d cases, %d calls, findings %s" % (len(cases), n_calls, dict(mut_entries)))
+
+    # ---- negative side + sensitivity of the observer -------------------------------------
+    must, may = inplace_ops()
+    n_neg = 12 if quick else 80
+    neg_fail = []
+    changed_counts = defaultdict(lambda: [0, 0, 0])
+    for i in range(n_neg):
+        ps = gen_part_spec(rng, "P0")
+        if i % 3 == 0:
+            ps["measures"] = False
+        for name, (f, cond) in must.items():
+            p = build_part(ps)
+            try:
+                if not cond(p):
+                    continue
+                a = fp_digest(fingerprint([p]))
+                f(p)
+                b = fp_digest(fingerprint([p]))
+            except Exception as e:
+                ctx.count("inplace_raised/%s/%s" % (name, type(e).__name__))
+                continue
+            ctx.evaluations += 1
+            changed_counts[name][0 if a != b else 1] += 1
+            if a == b:
+                neg_fail.append((name, ps))
+        for name, f in may.items():
+            p = build_part(ps)
+            try:
+                a = fp_digest(fingerprint([p]))
+                f(p)
+                b = fp_digest(fingerprint([p]))
+                changed_counts[name][0 if a != b else 1] += 1
+            except Exception as e:
+                changed_counts[name][2] += 1
+    ctx.extra["inplace_changed_unchanged_raised"] = {k: v for k, v in sorted(changed_counts.items())}
+    ctx.obligation("negative side: the documented in-place operations %s changed the fingerprint whenever their precondition held (%d applications)"
+                   % (sorted(must), sum(v[0] + v[1] for k, v in changed_counts.items() if k in must)), not neg_fail, [n for n, _ in neg_fail[:5]])
+    for name, ps in neg_fail[:1]:
+        ctx.violation("in-place operation %s did not change the fingerprint of its argument (observer blind or operation ineffective)" % name,
+                      {"kind": "inplace", "op": name, "part": ps})
+    sens_fail = []
+    sens_n = 0
+    for i in range(10 if quick else 60):
+        for kindname, mk in (("score", lambda: {"kind": "score", "spec": gen_score_spec(rng)}), ("perf", lambda: {"kind": "perf", "spec": gen_perf_spec(rng)}),
+                             ("align", lambda: {"kind": "align", "spec": gen_alignment_spec(rng)})):
+            case = mk()
+            try:
+                kind, args = build_case(case)
+                nwrites = len(direct_writes(kind, args))
+            except Exception:
+                continue
+            for wi in range(nwrites):
+                kind, args = build_case(case)
+                name, thunk = direct_writes(kind, args)[wi]
+                a = fp_digest(fingerprint(args))
+                try:
+                    applied = thunk()
+                except Exception:
+                    continue
+                if not applied:
+                    continue
+                sens_n += 1
+                if fp_digest(fingerprint(args)) == a:
+                    sens_fail.append(name)
+    ctx.obligation("observer self-test: each of %d small direct writes (attribute, dict entry, order inside a time point, identity of an object, "
+                   "links, performed-note and control fields, alignment entries, container attributes) changed the fingerprint" % sens_n,
+                   not sens_fail and sens_n > 0, sorted(set(sens_fail)))
+    if sens_fail or sens_n == 0:
+        ctx.violation("fingerprint blind to direct writes: %s" % sorted(set(sens_fail)), {"kind": "selftest", "writes": sorted(set(sens_fail))}, no_input=True)
+
+    if not proof_ok and len(ctx.violations) == nviol0:
+        ctx.violation("Coq development for C20 no longer checks: " + why[:1500], {"kind": "coq", "why": why[:3000]}, no_input=True)
+
+
+def replay(obj):
+    r = obj.get("replay", obj)
+    if r.get("kind") == "history":
+        obs, unchanged = run_history(r["spec"], r["history"])
+        print("container :", r["spec"])
+        print("history   :", r["history"])
+        print("observed  :", obs, "(container unchanged: %s)" % unchanged)
+        print("expected  :", oracle_history(r["spec"]["labels"], r["history"]))
+        return 0
+    if r.get("kind") == "footprint":
+        prm = dict(r["params"])
+        prm["_work"] = os.path.join(core.WORKROOT, "C20_replay")
+        os.makedirs(prm["_work"], exist_ok=True)
+        findings, trace, results = check_case(r["case"], r["schedule"], prm, [r["finding"]["entry"]])
+        print("case      :", json.dumps(r["case"])[:600])
+        print("schedule  :", r["schedule"])
+        print("stored    :", json.dumps(r["finding"], default=str)[:800])
+        print("now       :", json.dumps(findings, default=str)[:1600] if findings else "no finding (argument unchanged, results repeatable)")
+        return 0
+    print(json.dumps(r, indent=1, default=str)[:3000])
+    return 0
